@@ -1,0 +1,13 @@
+//go:build verif
+
+package udp
+
+// Contracts for the UDP header parser (properties C02, C20), checked by /verif/govc.
+//
+//@ func Unmarshal
+//@   check safety
+//@   ensures (result1 == nil) <==> (len(data) >= 8 && len(data) == int(uint16(data[4])<<8 | uint16(data[5])))
+//@   ensures result1 == nil ==> result0 != nil && result0.Source == uint16(data[0])<<8 | uint16(data[1]) && result0.Destination == uint16(data[2])<<8 | uint16(data[3])
+//@   ensures result1 == nil ==> len(result0.Payload) == len(data) - 8
+//@   ensures result1 != nil ==> result0 == nil
+//@   modifies nothing
